@@ -40,6 +40,8 @@ def _squared_norm(d, t):
 
 def run(ctx, col, tier):
     repo = ctx.repo
+    from ..rules import smalllints2 as _s2
+    _s2.run_emptyidx(ctx, col, ('swcgeom.core.tree_utils', 'swcgeom.core.tree_utils_impl', 'swcgeom.core.swc_utils.subtree', 'swcgeom.core.swc_utils.normalizer'))
     from ..rules import stateless as _stateless_memo
     _stateless_memo.run_memo(ctx, col)
     from ..rules import stale as _stale
